@@ -29,6 +29,8 @@ pub static mut SPAWNED: usize = 0;
 pub static mut FAULTS: bool = false;
 pub static mut FAULTED: usize = 0;
 pub static mut FAULT_SEEN: usize = 0;
+/// bit n: the n-th spawned task (1-based) failed
+pub static mut FAULT_MASK: u32 = 0;
 pub static mut ABORTS: usize = 0;
 pub static mut EAGER: usize = 0;
 pub static mut COMPLETED: usize = 0;
@@ -37,7 +39,7 @@ pub static mut SPAWNED_AT_FIRST_HANDLE_POLL: usize = 0;
 /// waker used for the eager poll at spawn time (the executor registers its root waker here)
 pub static mut ROOT: Option<Waker> = None;
 
-pub fn reset() { unsafe { SPAWNED = 0; FAULTS = false; FAULTED = 0; FAULT_SEEN = 0; ABORTS = 0; EAGER = 0; COMPLETED = 0; HANDLE_POLLS = 0; SPAWNED_AT_FIRST_HANDLE_POLL = 0; ROOT = None; } }
+pub fn reset() { unsafe { SPAWNED = 0; FAULTS = false; FAULTED = 0; FAULT_SEEN = 0; FAULT_MASK = 0; ABORTS = 0; EAGER = 0; COMPLETED = 0; HANDLE_POLLS = 0; SPAWNED_AT_FIRST_HANDLE_POLL = 0; ROOT = None; } }
 
 fn rw_clone(_: *const ()) -> RawWaker { RawWaker::new(core::ptr::null(), &VT) }
 fn rw_nop(_: *const ()) {}
@@ -52,7 +54,7 @@ pub fn spawn<F>(f: F) -> JoinHandle<F::Output>
 where F: Future + Send + 'static, F::Output: Send + 'static {
     let mut f: Pin<Box<dyn Future<Output = F::Output> + Send + 'static>> = Box::pin(f);
     unsafe { SPAWNED += 1; }
-    if unsafe { FAULTS } && nd::bool() { unsafe { FAULTED += 1; } return JoinHandle { fut: None, out: None, fault: true, aborted: false }; }
+    if unsafe { FAULTS } && nd::bool() { unsafe { FAULTED += 1; FAULT_MASK |= 1u32 << SPAWNED; } return JoinHandle { fut: None, out: None, fault: true, aborted: false }; }
     let eager = nd::bool();
     if eager {
         unsafe { EAGER += 1; }
